@@ -308,7 +308,14 @@ func (d *decompressor) readMember() error {
 	// Read compressed data into the decompressor buffer until the
 	// underlying flate.Reader is positioned at the end of the gzip
 	// member in which the readMember call was made.
-	return d.buf.readLimited(need, d.cr)
+	err = d.buf.readLimited(need, d.cr)
+	if err == io.EOF {
+		// The member's header was read but none of the need
+		// bytes that must follow it: the stream is truncated,
+		// not at its end.
+		err = io.ErrUnexpectedEOF
+	}
+	return err
 }
 
 // Offset is a BGZF virtual offset.
